@@ -1,27 +1,37 @@
 (* Text.v — byte-string utilities shared by the parsers, the renderers and the
    command dispatcher: decimal and hexadecimal conversion, splitting, joining. *)
 From GS Require Import GoSem.
-From Coq Require Import Decimal DecimalN.
 Open Scope N_scope.
 
 (* ---- decimal ---- *)
-Fixpoint uint_to_bytes (u : Decimal.uint) : bytes :=
-  match u with
-  | Decimal.Nil => []
-  | Decimal.D0 u => 48 :: uint_to_bytes u
-  | Decimal.D1 u => 49 :: uint_to_bytes u
-  | Decimal.D2 u => 50 :: uint_to_bytes u
-  | Decimal.D3 u => 51 :: uint_to_bytes u
-  | Decimal.D4 u => 52 :: uint_to_bytes u
-  | Decimal.D5 u => 53 :: uint_to_bytes u
-  | Decimal.D6 u => 54 :: uint_to_bytes u
-  | Decimal.D7 u => 55 :: uint_to_bytes u
-  | Decimal.D8 u => 56 :: uint_to_bytes u
-  | Decimal.D9 u => 57 :: uint_to_bytes u
+(* fmt "%d" of an unsigned value: most significant digit first.  The fuel is
+   the bit size of n plus one, which always exceeds its number of digits. *)
+Fixpoint digits (fuel : nat) (n : N) (acc : bytes) : bytes :=
+  match fuel with
+  | O => acc
+  | S f =>
+      let acc' := (48 + n mod 10) :: acc in
+      if n <? 10 then acc' else digits f (n / 10) acc'
   end.
+Definition dec (n : N) : bytes := digits (S (N.size_nat n)) n [].
 
-(* fmt "%d" of an unsigned value *)
-Definition dec (n : N) : bytes := uint_to_bytes (N.to_uint n).
+Lemma digits_length f : forall n acc k, n < 10 ^ N.of_nat k -> (1 <= k)%nat ->
+  (length (digits f n acc) <= k + length acc)%nat.
+Proof.
+  induction f as [|f IH]; intros n acc k Hn Hk; simpl; [lia|].
+  destruct (n <? 10) eqn:E; simpl; [lia|].
+  apply N.ltb_ge in E.
+  destruct k as [|[|k]]; [lia| |].
+  - simpl in Hn. lia.
+  - specialize (IH (n / 10) ((48 + n mod 10) :: acc) (S k)).
+    simpl length in IH. assert (Hd : n / 10 < 10 ^ N.of_nat (S k)).
+    { replace (N.of_nat (S (S k))) with (N.succ (N.of_nat (S k))) in Hn by lia.
+      rewrite N.pow_succ_r' in Hn. apply N.div_lt_upper_bound; lia. }
+    specialize (IH Hd ltac:(lia)). lia.
+Qed.
+
+Lemma dec_length n k : n < 10 ^ N.of_nat k -> (1 <= k)%nat -> (length (dec n) <= k)%nat.
+Proof. intros H Hk. unfold dec. pose proof (digits_length (S (N.size_nat n)) n [] k H Hk). simpl in *. lia. Qed.
 
 Definition is_digit (c : N) : bool := (48 <=? c) && (c <=? 57).
 
